@@ -12,6 +12,8 @@ CONSTANTS
   OblDirtyRefused = TRUE
   OblIdempotent = TRUE
   OblFence = TRUE
+  OblP1Atomic = TRUE
+  OblHonest = TRUE
   AllowXA = TRUE
   OblXATruthful = FALSE
 INVARIANTS TypeOK ATAtomicRollback TCCAtomic XAAtomic NoDirtyGlobalWrite RollbackPossible
